@@ -46,6 +46,7 @@ struct VecTarget
     uint32_t keyspace = 16;
     size_t maxlen = 48;
     char const *P; // name prefix for sites
+    bool mac = false; // this op goes through the typed upper-case macro forms (A_VEC_PUSH_BACK(T, ctx) ...) instead of the functions
     int64_t bern_permille = 0; uint64_t bern_seed = 0;
 
     VecTarget(Ctx &c_, bool buf) : c(c_), run(c_), is_buf(buf), P(buf ? "a_buf_" : "a_vec_") {}
@@ -191,9 +192,16 @@ struct VecTarget
         std::string const name = nm(which == 0 ? "push_back" : which == 1 ? "push_fore" : "insert");
         bool const full = is_buf && x.M.size() >= x.c;
         int rc = run.api(name.c_str(), [&] {
-            if (is_buf) p = which == 0 ? a_buf_push_back(x.b) : which == 1 ? a_buf_push_fore(x.b) : a_buf_insert(x.b, idx);
+            typedef unsigned char UC;
+            if (mac)
+            {
+                if (is_buf) p = which == 0 ? (((idx ^ (size_t)key) & 1) ? A_BUF_PUSH(UC, x.b) : A_BUF_PUSH_BACK(UC, x.b)) : which == 1 ? A_BUF_PUSH_FORE(UC, x.b) : A_BUF_INSERT(UC, x.b, idx);
+                else p = which == 0 ? (((idx ^ (size_t)key) & 1) ? A_VEC_PUSH(UC, x.v) : A_VEC_PUSH_BACK(UC, x.v)) : which == 1 ? A_VEC_PUSH_FORE(UC, x.v) : A_VEC_INSERT(UC, x.v, idx);
+            }
+            else if (is_buf) p = which == 0 ? a_buf_push_back(x.b) : which == 1 ? a_buf_push_fore(x.b) : a_buf_insert(x.b, idx);
             else p = which == 0 ? a_vec_push_back(x.v) : which == 1 ? a_vec_push_fore(x.v) : a_vec_insert(x.v, idx);
             return p != nullptr; }, [&] { return check(x, name.c_str()); });
+        if (mac) c.st.add("probe.typed_macro_form");
         if (rc == SeqRun::API_VIOLATION) return false;
         if (rc == SeqRun::API_FAULTED) return true;
         if (full)
@@ -217,7 +225,14 @@ struct VecTarget
         std::string const name = nm(which == 0 ? "pull_back" : which == 1 ? "pull_fore" : "remove");
         if (x.M.size() > 1 && (which != 0)) c.st.add(x.num() < x.mem() ? "probe.remove_spare_slot_path" : "probe.remove_exactly_full_path");
         c.site(name.c_str());
-        if (is_buf) p = which == 0 ? a_buf_pull_back(x.b) : which == 1 ? a_buf_pull_fore(x.b) : a_buf_remove(x.b, idx);
+        typedef unsigned char UC;
+        if (mac)
+        {
+            c.st.add("probe.typed_macro_form");
+            if (is_buf) p = which == 0 ? ((idx & 1) ? A_BUF_PULL(UC, x.b) : A_BUF_PULL_BACK(UC, x.b)) : which == 1 ? A_BUF_PULL_FORE(UC, x.b) : A_BUF_REMOVE(UC, x.b, idx);
+            else p = which == 0 ? ((idx & 1) ? A_VEC_PULL(UC, x.v) : A_VEC_PULL_BACK(UC, x.v)) : which == 1 ? A_VEC_PULL_FORE(UC, x.v) : A_VEC_REMOVE(UC, x.v, idx);
+        }
+        else if (is_buf) p = which == 0 ? a_buf_pull_back(x.b) : which == 1 ? a_buf_pull_fore(x.b) : a_buf_remove(x.b, idx);
         else p = which == 0 ? a_vec_pull_back(x.v) : which == 1 ? a_vec_pull_fore(x.v) : a_vec_remove(x.v, idx);
         if (x.M.empty())
         {
@@ -272,7 +287,10 @@ struct VecTarget
         {
             std::string const name = nm("push_sort");
             void *p = nullptr;
-            int rc = run.api(name.c_str(), [&] { p = is_buf ? a_buf_push_sort(x.b, e.data(), elem_cmp) : a_vec_push_sort(x.v, e.data(), elem_cmp); return p != nullptr; }, [&] { return check(x, name.c_str()); });
+            int rc = run.api(name.c_str(), [&] {
+                if (mac) p = is_buf ? A_BUF_PUSH_SORT(unsigned char, x.b, e.data(), elem_cmp) : A_VEC_PUSH_SORT(unsigned char, x.v, e.data(), elem_cmp);
+                else p = is_buf ? a_buf_push_sort(x.b, e.data(), elem_cmp) : a_vec_push_sort(x.v, e.data(), elem_cmp);
+                return p != nullptr; }, [&] { return check(x, name.c_str()); });
             if (rc == SeqRun::API_VIOLATION) return false;
             if (rc == SeqRun::API_FAULTED) return true;
             if (full) { c.st.add("probe.buf_refused_full"); if (rc == SeqRun::API_OK) return c.fail("full-buffer-accepted-element", name.c_str(), "buffer at capacity returned a slot"); return check(x, name.c_str()); }
@@ -302,6 +320,66 @@ struct VecTarget
         if (is_buf) { if (which == 0) a_buf_sort_fore(x.b, elem_cmp); else a_buf_sort_back(x.b, elem_cmp); }
         else { if (which == 0) a_vec_sort_fore(x.v, elem_cmp); else a_vec_sort_back(x.v, elem_cmp); }
         return adopt_sorted(x, want, sname.c_str());
+    }
+
+    // the index and element iteration macros of the headers must enumerate exactly the model sequence
+    template <size_t Z> struct El { unsigned char b[Z]; };
+    template <size_t Z> bool iterate_typed(VecBox &x)
+    {
+        typedef El<Z> T;
+        std::vector<std::string> fw, bw, fw2, bw2;
+        size_t const lim = x.M.size() + 2;
+        if (is_buf)
+        {
+            a_buf *ctx = x.b;
+            { a_buf_foreach(T, *, it, ctx) { fw.push_back(std::string((char const *)it, Z)); if (fw.size() > lim) break; } }
+            { a_buf_foreach_reverse(T, *, it, ctx) { bw.push_back(std::string((char const *)it, Z)); if (bw.size() > lim) break; } }
+            { T *it, *at; A_BUF_FOREACH(T *, it, at, ctx) { fw2.push_back(std::string((char const *)it, Z)); if (fw2.size() > lim) break; } }
+            { T *it, *at; A_BUF_FOREACH_REVERSE(T *, it, at, ctx) { bw2.push_back(std::string((char const *)it, Z)); if (bw2.size() > lim) break; } }
+        }
+        else
+        {
+            a_vec *ctx = x.v;
+            { a_vec_foreach(T, *, it, ctx) { fw.push_back(std::string((char const *)it, Z)); if (fw.size() > lim) break; } }
+            { a_vec_foreach_reverse(T, *, it, ctx) { bw.push_back(std::string((char const *)it, Z)); if (bw.size() > lim) break; } }
+            { T *it, *at; A_VEC_FOREACH(T *, it, at, ctx) { fw2.push_back(std::string((char const *)it, Z)); if (fw2.size() > lim) break; } }
+            { T *it, *at; A_VEC_FOREACH_REVERSE(T *, it, at, ctx) { bw2.push_back(std::string((char const *)it, Z)); if (bw2.size() > lim) break; } }
+        }
+        std::vector<std::string> rev(x.M.rbegin(), x.M.rend());
+        if (fw != x.M || fw2 != x.M || bw != rev || bw2 != rev) return c.fail("iteration-wrong", nm("foreach").c_str(), "an element iteration macro does not yield the model sequence (or its reverse)");
+        return true;
+    }
+    bool iterate_macros(VecBox &x)
+    {
+        c.site(nm("forenum").c_str());
+        std::vector<size_t> a, b, d, e;
+        size_t const lim = x.M.size() + 2;
+        if (is_buf)
+        {
+            a_buf *ctx = x.b; a_size i;
+            { a_buf_forenum(k, ctx) { a.push_back(k); if (a.size() > lim) break; } }
+            { a_buf_forenum_reverse(k, ctx) { b.push_back(k); if (b.size() > lim) break; } }
+            { A_BUF_FORENUM(a_size, i, ctx) { d.push_back(i); if (d.size() > lim) break; } }
+            { A_BUF_FORENUM_REVERSE(a_size, i, ctx) { e.push_back(i); if (e.size() > lim) break; } }
+        }
+        else
+        {
+            a_vec *ctx = x.v; a_size i;
+            { a_vec_forenum(k, ctx) { a.push_back(k); if (a.size() > lim) break; } }
+            { a_vec_forenum_reverse(k, ctx) { b.push_back(k); if (b.size() > lim) break; } }
+            { A_VEC_FORENUM(a_size, i, ctx) { d.push_back(i); if (d.size() > lim) break; } }
+            { A_VEC_FORENUM_REVERSE(a_size, i, ctx) { e.push_back(i); if (e.size() > lim) break; } }
+        }
+        bool okk = a.size() == x.M.size() && b.size() == x.M.size() && d == a && e == b;
+        for (size_t k = 0; okk && k < a.size(); ++k) okk = a[k] == k && b[k] == a.size() - 1 - k;
+        if (!okk) return c.fail("iteration-wrong", nm("forenum").c_str(), "an index iteration macro does not enumerate 0..n-1 (or its reverse)");
+        c.st.add("probe.iteration_macros");
+        switch (x.z)
+        {
+        case 1: return iterate_typed<1>(x); case 2: return iterate_typed<2>(x); case 3: return iterate_typed<3>(x); case 4: return iterate_typed<4>(x);
+        case 7: return iterate_typed<7>(x); case 8: return iterate_typed<8>(x); case 16: return iterate_typed<16>(x); case 24: return iterate_typed<24>(x);
+        case 40: return iterate_typed<40>(x); default: return true;
+        }
     }
 
     // ---------------------------------------------------------------- interpreter
@@ -362,6 +440,7 @@ struct VecTarget
         size_t const len = x.M.size();
         g_cb_z = x.z;
         bool const roomy = len < maxlen;
+        mac = (((uint64_t)o.a[0] * 3 + (uint64_t)o.a[1] * 5 + (uint64_t)o.a[2] * 7 + (uint64_t)o.a[3]) >> 3 & 3) == 0;
         switch (o.kind)
         {
         case V_PUSH_BACK: if (roomy) do_insert(x, 0, 0, o.a[0]); break;
@@ -527,7 +606,8 @@ struct VecTarget
             std::string key = make_elem(x.z, (uint32_t)((uint64_t)(o.a[0] < 0 ? -o.a[0] : o.a[0]) % (keyspace + 2)), 0);
             std::string const name = nm("search");
             c.site(name.c_str());
-            void *p = is_buf ? a_buf_search(x.b, key.data(), elem_cmp) : a_vec_search(x.v, key.data(), elem_cmp);
+            void *p = mac ? (is_buf ? (void *)A_BUF_SEARCH(unsigned char, x.b, key.data(), elem_cmp) : (void *)A_VEC_SEARCH(unsigned char, x.v, key.data(), elem_cmp))
+                          : (is_buf ? a_buf_search(x.b, key.data(), elem_cmp) : a_vec_search(x.v, key.data(), elem_cmp));
             bool present = false;
             for (auto const &e : x.M) if (elem_key(e.data(), x.z) == elem_key(key.data(), x.z)) present = true;
             c.st.add(present ? "probe.search_hit" : "probe.search_miss");
@@ -555,6 +635,10 @@ struct VecTarget
                 if (idx < len && memcmp(p, x.M[idx].data(), x.z) != 0) c.fail("access-wrong-element", nm("at").c_str(), "element %zu differs from the model", idx);
                 void *q = is_buf ? a_buf_at_(x.b, idx) : a_vec_at_(x.v, idx); // unchecked form, valid for idx < capacity
                 if (c.ok() && q != p) c.fail("access-wrong-element", nm("at_").c_str(), "unchecked and checked accessors disagree for index %zu", idx);
+                void *m1 = is_buf ? (void *)A_BUF_AT(unsigned char, x.b, idx) : (void *)A_VEC_AT(unsigned char, x.v, idx);
+                void *m2 = is_buf ? (void *)A_BUF_AT_(unsigned char, x.b, idx) : (void *)A_VEC_AT_(unsigned char, x.v, idx);
+                void *m3 = is_buf ? (void *)A_BUF_PTR(unsigned char, x.b) : (void *)A_VEC_PTR(unsigned char, x.v);
+                if (c.ok() && (m1 != p || m2 != p || m3 != (void *)x.base())) c.fail("access-wrong-element", nm("at").c_str(), "typed macro accessors disagree with the functions for index %zu", idx);
             }
             else if (how == 1)
             {
@@ -580,12 +664,17 @@ struct VecTarget
                 void *q = is_buf ? a_buf_top_(x.b) : a_vec_top_(x.v);
                 if (c.ok() && q != p) c.fail("access-wrong-element", nm("top_").c_str(), "unchecked and checked top disagree");
                 if (c.ok() && !is_buf && a_vec_end_(x.v) != a_vec_end(x.v)) c.fail("access-wrong-element", "a_vec_end_", "unchecked and checked end disagree");
+                void *t1 = is_buf ? (void *)A_BUF_TOP(unsigned char, x.b) : (void *)A_VEC_TOP(unsigned char, x.v);
+                void *t2 = is_buf ? (void *)A_BUF_TOP_(unsigned char, x.b) : (void *)A_VEC_TOP_(unsigned char, x.v);
+                void *t3 = is_buf ? (void *)A_BUF_END(unsigned char, x.b) : (void *)A_VEC_END(unsigned char, x.v);
+                if (c.ok() && (t1 != p || t2 != p || (unsigned char *)t3 != (unsigned char *)p + x.z)) c.fail("access-wrong-element", nm("top").c_str(), "typed macro top/end disagree with the functions");
             }
             else
             {
                 c.site(nm("end").c_str());
                 void *p = is_buf ? a_buf_end(x.b) : a_vec_end(x.v);
                 if (len) { void *t = is_buf ? a_buf_top(x.b) : a_vec_top(x.v); if (!p || (unsigned char *)p != (unsigned char *)t + x.z) c.fail("access-wrong-element", nm("end").c_str(), "end is not one element past top"); }
+                if (c.ok()) iterate_macros(x);
             }
             break;
         }
